@@ -176,8 +176,17 @@ def work_deep(args):
             d['nested'] = True
             ctx.count('engines')
             check_engine(ctx, d)
+    # self-registering packages that start with a class marked DAWGIE_IGNORE
+    for name, desc in nested.items():
+        for style in ('auto', 'custom'):
+            for ign in ('template', 'abstract'):
+                d = dict(desc)
+                d['style'] = style
+                d['ignored'] = ign
+                ctx.count('engines')
+                check_engine(ctx, d)
     out = ctx.export()
-    out['shapes'] = 2 * len(aegen.deep_engines()) + 2 * len(nested)
+    out['shapes'] = 2 * len(aegen.deep_engines()) + 6 * len(nested)
     return out
 
 
